@@ -14,7 +14,7 @@
    The upstreams are processed in list order; the code's order is the completion order
    of its fetch goroutines, so the correspondence compares order-insensitive projections.
    No proofs here. *)
-From Coq Require Import String List ZArith NArith Bool.
+From Coq Require Import String List ZArith NArith Bool QArith_base.
 From NSQV Require Import model.Judge.
 Import ListNotations.
 Open Scope list_scope.
@@ -174,13 +174,20 @@ Definition nsqd_topics (ups : list (bytes * fetch (list bytes))) : agg (list byt
 (* ------------------------------------------------------------------ per-node statistics as decoded *)
 Record client := mkClient { cl_id : bytes; cl_host : bytes }.
 
+(* e2e_processing_latency as an nsqd serves it: the number of samples of its window and one
+   {"quantile": q, "value": v} entry per configured percentile ([None] = a JSON null entry).
+   Numbers are exact rationals: the correspondence feeds values float64 represents exactly.
+   What the code does with them is model/Quantile.v. *)
+Record pct := mkPct { pc_q : Q; pc_val : Q }.
+Record e2e := mkE2e { e_count : Z; e_pcts : list (option pct) }.
+
 Record chan := mkChan {
   ch_name : bytes;
   ch_depth : Z; ch_backend : Z; ch_inflight : Z; ch_deferred : Z; ch_requeue : Z; ch_timeout : Z;
   ch_msgs : Z; ch_zone : Z; ch_region : Z; ch_global : Z; ch_ccount : Z;
   ch_paused : bool;
   ch_clients : list (option client);
-  ch_e2e : option (list bool)      (* e2e_processing_latency: absent, or its percentile entries (true = JSON null) *)
+  ch_e2e : option e2e              (* e2e_processing_latency: absent / null, or the block *)
 }.
 
 Record topic := mkTopic {
@@ -188,7 +195,7 @@ Record topic := mkTopic {
   tp_depth : Z; tp_backend : Z; tp_msgs : Z; tp_zone : Z; tp_region : Z; tp_global : Z;
   tp_paused : bool;
   tp_chans : list (option chan);
-  tp_e2e : option (list bool)
+  tp_e2e : option e2e
 }.
 
 (* the 13 summed channel counters and the 8 summed topic counters *)
@@ -236,14 +243,15 @@ Record cagg := mkCA {
 }.
 Definition star : bytes := [42%N].
 
-(* quantile: UnmarshalJSON assigns into every non-null percentile map; Add returns at once on nil *)
+(* quantile: UnmarshalJSON assigns into every non-null percentile map ([true] = a null entry); Add
+   returns at once on nil.  The numbers Add computes are modelled in model/Quantile.v. *)
 Definition map_assign (null_map : bool) : res unit := if null_map then Crash else Ok tt.
 Fixpoint e2e_unmarshal (ps : list bool) : res unit :=
   match ps with
   | [] => Ok tt
   | p :: r => bind (if p then Ok tt (* if p == nil { continue } *) else map_assign p) (fun _ => e2e_unmarshal r)
   end.
-Definition e2e_add (e2 : option (list bool)) : res unit :=
+Definition e2e_add (e2 : option e2e) : res unit :=
   if is_nil e2 then Ok tt                       (* if e2 == nil { return } *)
   else bind (deref e2) (fun _ => Ok tt).
 
@@ -319,10 +327,10 @@ Definition proc_topic_g (p : pinfo) (sel_topic : bytes) (st : stats_state) (pt :
             Ok (fst st ++ [mkTN (p_addr p) (p_hostname p) (tp_name t) (topic_num t) (tp_paused t) (tp_chans t)], cm))).
 (* json.Unmarshal of the answer runs E2eProcessingLatencyAggregate.UnmarshalJSON on every aggregate *)
 Definition decode_e2e_chan (pc : option chan) : res unit :=
-  match pc with Some c => match ch_e2e c with Some ps => e2e_unmarshal ps | None => Ok tt end | None => Ok tt end.
+  match pc with Some c => match ch_e2e c with Some e => e2e_unmarshal (map is_nil (e_pcts e)) | None => Ok tt end | None => Ok tt end.
 Definition decode_e2e_topic (pt : option topic) : res unit :=
   match pt with
-  | Some t => bind (match tp_e2e t with Some ps => e2e_unmarshal ps | None => Ok tt end)
+  | Some t => bind (match tp_e2e t with Some e => e2e_unmarshal (map is_nil (e_pcts e)) | None => Ok tt end)
                    (fun _ => fold_res (fun _ c => decode_e2e_chan c) (tp_chans t) tt)
   | None => Ok tt
   end.
